@@ -188,3 +188,156 @@ func init() {
 		},
 	})
 }
+
+// c15StructsCompared: (*Ast).EquivalentCall (martian/syntax/equivalence.go) runs,
+// after the call comparison, the second pass `structComparer{...}.call(...)`
+// which compares the DEFINITIONS of the struct types used by the compared
+// parameters (repair of F20), and returns false when that pass fails.  The
+// fact is `true` when the function contains a composite literal of type
+// `structComparer` and a call of its method `call` inside the condition of an
+// `if` whose body returns false; `false` when the function exists without it.
+func init() {
+	addFact(fact{
+		name:   "c15StructsCompared",
+		leanTy: "Bool",
+		deflt:  "true",
+		extract: func(repo string) (string, interface{}, error) {
+			_, f, err := parseFile(repo, "martian/syntax/equivalence.go")
+			if err != nil {
+				return "", nil, err
+			}
+			fd := findMethod(f, "Ast", "EquivalentCall")
+			if fd == nil || fd.Body == nil {
+				return "", nil, fmt.Errorf("(*Ast).EquivalentCall not found")
+			}
+			comparers := map[string]bool{}
+			ast.Inspect(fd.Body, func(n ast.Node) bool {
+				as, ok := n.(*ast.AssignStmt)
+				if !ok || len(as.Lhs) != 1 || len(as.Rhs) != 1 {
+					return true
+				}
+				lhs, ok := as.Lhs[0].(*ast.Ident)
+				if !ok {
+					return true
+				}
+				if cl, ok := as.Rhs[0].(*ast.CompositeLit); ok {
+					if id, ok := cl.Type.(*ast.Ident); ok && id.Name == "structComparer" {
+						comparers[lhs.Name] = true
+					}
+				}
+				return true
+			})
+			guarded := false
+			ast.Inspect(fd.Body, func(n ast.Node) bool {
+				is, ok := n.(*ast.IfStmt)
+				if !ok {
+					return true
+				}
+				un, ok := is.Cond.(*ast.UnaryExpr)
+				if !ok || un.Op.String() != "!" {
+					return true
+				}
+				ce, ok := un.X.(*ast.CallExpr)
+				if !ok {
+					return true
+				}
+				sel, ok := ce.Fun.(*ast.SelectorExpr)
+				if !ok || sel.Sel.Name != "call" {
+					return true
+				}
+				if x, ok := sel.X.(*ast.Ident); !ok || !comparers[x.Name] {
+					return true
+				}
+				// the body must return false
+				for _, st := range is.Body.List {
+					if rs, ok := st.(*ast.ReturnStmt); ok && len(rs.Results) == 1 {
+						if id, ok := rs.Results[0].(*ast.Ident); ok && id.Name == "false" {
+							guarded = true
+						}
+					}
+				}
+				return true
+			})
+			if guarded {
+				return "true", map[string]interface{}{"second_pass": "structComparer.call guards the verdict"}, nil
+			}
+			return "false", map[string]interface{}{"second_pass": "absent"}, nil
+		},
+	})
+}
+
+// c15RefusedStartRemovesDir: in (*Runtime).InvokePipeline (martian/core/runtime.go) the error
+// branch right after the call of `instantiatePipeline` — which is where a start that loses the
+// race for the lock returns PipestanceLockedError — removes the pipestance directory.  `true`
+// when `os.RemoveAll` is a statement of that branch itself (unconditional: the directory of the
+// mrp that owns the pipestance is deleted); `false` when it only occurs under a further condition
+// (the repaired code removes it unless the error is PipestanceLockedError) or not at all.
+func init() {
+	addFact(fact{
+		name:   "c15RefusedStartRemovesDir",
+		leanTy: "Bool",
+		deflt:  "false",
+		extract: func(repo string) (string, interface{}, error) {
+			_, f, err := parseFile(repo, "martian/core/runtime.go")
+			if err != nil {
+				return "", nil, err
+			}
+			fd := findMethod(f, "Runtime", "InvokePipeline")
+			if fd == nil || fd.Body == nil {
+				return "", nil, fmt.Errorf("(*Runtime).InvokePipeline not found")
+			}
+			isRemoveAll := func(st ast.Stmt) bool {
+				es, ok := st.(*ast.ExprStmt)
+				if !ok {
+					return false
+				}
+				ce, ok := es.X.(*ast.CallExpr)
+				if !ok {
+					return false
+				}
+				sel, ok := ce.Fun.(*ast.SelectorExpr)
+				return ok && sel.Sel.Name == "RemoveAll"
+			}
+			// the statement after `… := self.instantiatePipeline(…)`
+			for i, st := range fd.Body.List {
+				as, ok := st.(*ast.AssignStmt)
+				if !ok || len(as.Rhs) != 1 {
+					continue
+				}
+				ce, ok := as.Rhs[0].(*ast.CallExpr)
+				if !ok {
+					continue
+				}
+				sel, ok := ce.Fun.(*ast.SelectorExpr)
+				if !ok || sel.Sel.Name != "instantiatePipeline" {
+					continue
+				}
+				if i+1 >= len(fd.Body.List) {
+					break
+				}
+				is, ok := fd.Body.List[i+1].(*ast.IfStmt)
+				if !ok {
+					break
+				}
+				direct, nested := false, false
+				for _, b := range is.Body.List {
+					if isRemoveAll(b) {
+						direct = true
+					}
+					ast.Inspect(b, func(n ast.Node) bool {
+						if s, ok := n.(ast.Stmt); ok && s != b && isRemoveAll(s) {
+							nested = true
+						}
+						return true
+					})
+				}
+				js := map[string]interface{}{"remove_all_unconditional": direct, "remove_all_conditional": nested}
+				if direct {
+					return "true", js, nil
+				}
+				return "false", js, nil
+			}
+			return "", nil, fmt.Errorf("error branch after instantiatePipeline not found in InvokePipeline")
+		},
+	})
+}
